@@ -17,7 +17,9 @@ let bump = 4096;
 globalThis.__allocs = [];
 const base = {
   memory,
-  diplomat_alloc(size, align) { bump = Math.ceil(bump / align) * align; const p = bump; bump += Math.max(size, 1) + 16; globalThis.__allocs.push([size, align]); return p; },
+  // like the real allocator (alloc::alloc::alloc) the mock hands out memory with arbitrary previous contents
+  diplomat_alloc(size, align) { bump = Math.ceil(bump / align) * align; const p = bump; bump += Math.max(size, 1) + 16; globalThis.__allocs.push([size, align]);
+    new Uint8Array(memory.buffer, p, Math.max(size, 1) + 16).fill(0xAA); return p; },
   diplomat_free(p, size, align) {},
 };
 export default new Proxy(base, { get(t, name) { if (name in t) return t[name]; return (...args) => globalThis.__hook(String(name), args, t); } });
@@ -307,7 +309,7 @@ def check(ctx, replay=None):
   try {{ {n}.fromFields({js_val(S, t(n), v)}).take(); }} catch (e) {{ rec.take_error = String(e); }}
   globalThis.__allocs.length = 0;
   globalThis.__hook = (name, args, w) => {{ rec.give_nargs = args.length;
-    if (args.length >= 1) {{ new Uint8Array(w.memory.buffer, args[args.length - 1], {size}).set(Uint8Array.from("{buf.hex()}".match(/../g).map(h => parseInt(h, 16)))); return undefined; }}
+    if (args.length >= 1) {{ new Uint8Array(w.memory.buffer, args[args.length - 1], {size}).set(Uint8Array.from("{dirty(S, t(n), v, buf).hex()}".match(/../g).map(h => parseInt(h, 16)))); return undefined; }}
     return GIVEPRIM; }};
   const GIVEPRIM = {js_lit(single_prim_js(S, t(n), v))};
   try {{ rec.give = ser({n}.give()); }} catch (e) {{ rec.give_error = String(e); }}
@@ -319,17 +321,17 @@ def check(ctx, replay=None):
                             u, a, total = result_layout(S, t(n), ("struct", e) if e else None)
                             for ok in ((True, False) if vi == 0 else (True,)):
                                 if ok or not e:
-                                    payload = buf.hex() if ok else ""
+                                    payload = dirty(S, t(n), v, buf).hex() if ok else ""
                                 else:
                                     ev = vals[e][0]
                                     eb = bytearray(size_align(S, ("struct", e))[0]); pack(S, ("struct", e), ev, eb, 0)
-                                    payload = eb.hex()
+                                    payload = dirty(S, ("struct", e), ev, eb).hex()
                                 drv.append(f"""{{
   let rec = {{s: "{n}", v: {vi}, fall: "{m}", err: {json.dumps(e)}, ok: {'true' if ok else 'false'}}};
   globalThis.__allocs.length = 0;
   globalThis.__hook = (name, args, w) => {{ rec.nargs = args.length; rec.export = name;
     const bytes = "{payload}".match(/../g) || [];
-    new Uint8Array(w.memory.buffer, args[0], {total}).fill(0);
+    new Uint8Array(w.memory.buffer, args[0], {total}).fill(0xAA);
     new Uint8Array(w.memory.buffer, args[0], bytes.length).set(Uint8Array.from(bytes.map(h => parseInt(h, 16))));
     new Uint8Array(w.memory.buffer, args[0] + {u}, 1)[0] = {1 if ok else 0}; return undefined; }};
   try {{ rec.got = ser({n}.{jm}()); rec.returned = true; }} catch (x) {{ if (x && x.cause !== undefined) rec.cause = ser(x.cause); else rec.error = String(x); }}
@@ -406,7 +408,7 @@ def check(ctx, replay=None):
                     if "take_bytes" in rec:
                         got = bytes.fromhex(rec["take_bytes"])
                         # padding bytes are unspecified: compare the bytes of the fields only
-                        mask = bytearray(size); pack_mask(S, t(n), mask, 0)
+                        mask = bytearray(size); pack_mask(S, t(n), mask, 0, v)
                         if bytes(a & m for a, m in zip(got, mask)) != bytes(a & m for a, m in zip(buf, mask)):
                             violate("direct:write:spec", dict(ctxinfo, what=f"JS wrote {got.hex()} into wasm memory, repr(C) bytes are {buf.hex()}"))
                         masked = [a & m for a, m in zip(got, mask)]
@@ -450,6 +452,13 @@ def check(ctx, replay=None):
         {"struct_families": 2 if ctx.quick() else 10, "values": nvals, "fallible_returns": nfall})
 
 
+def dirty(S, t, v, buf):
+    """the repr(C) image with every byte that carries no information (padding, payloads of absent options) set to 0xAA: what JS
+    finds in memory when Rust wrote the value into a buffer that was not zeroed"""
+    mask = bytearray(len(buf)); pack_mask(S, t, mask, 0, v)
+    return bytes(b if m else 0xAA for b, m in zip(buf, mask))
+
+
 def js_lit(x):
     """JS literal of the value a mocked wasm export returns (64-bit integers are BigInts)"""
     return f"{x[1]}n" if isinstance(x, tuple) else json.dumps(x)
@@ -481,7 +490,8 @@ def single_prim_js(S, t, v):
     return None
 
 
-def pack_mask(S, t, mask, base):
+def pack_mask(S, t, mask, base, v=None):
+    """which bytes of the repr(C) image carry information for value v (everything but padding and absent payloads)"""
     k = t[0]
     if k == "prim":
         for i in range(PRIMS[t[1]][0]): mask[base + i] = 0xFF
@@ -490,7 +500,9 @@ def pack_mask(S, t, mask, base):
     elif k == "struct":
         offs, _, _ = layout(S, S[t[1]])
         for (fn, ft), o in zip(S[t[1]], offs):
-            pack_mask(S, ft, mask, base + o)
+            pack_mask(S, ft, mask, base + o, None if v is None else v[fn])
     elif k == "opt":
         s, a = size_align(S, t[1])
         mask[base + s] = 0xFF      # the flag; the payload is only meaningful when present
+        if v is not None:
+            pack_mask(S, t[1], mask, base, v[0])
